@@ -30,15 +30,21 @@ Peers == Hosts \cup {99}          \* 99 = an address string that does not parse
 Forged == {"absent", "h0", "h5", "h7", "junk"}    \* client-supplied X-Forwarded-For / X-Real-IP
 Families == {"v4", "v6", "mapped"}
 Malformed == {"none", "allow", "deny"}
+\* spelling of the malformed entry: out-of-range address, blank, blanks only, a host name, a prefix length out of range
+MalKinds == {"badip", "blank", "space", "hostname", "cidr_oob"}
 Authz == {"absent", "exact", "wrong", "lower", "twospace", "prefixonly", "notrail", "suffix"}
 Endpoints == {"health", "metrics", "backends", "add", "remove", "strategy"}
 Methods == {"GET", "POST", "DELETE"}
 
 \* ---- the policy
 Configured(c) == c.allow # {} \/ c.deny # {} \/ c.malformed # "none"
+\* A malformed entry still says which list the operator meant to use: an allow list with only a
+\* malformed entry is not "no allow list", and a configuration whose only entry is a malformed deny
+\* entry must not end up unfiltered.
 PeerPasses(c) == /\ c.peer \in Hosts
                  /\ \A n \in c.deny : ~InNet(c.peer, n)
-                 /\ (c.allow = {} \/ \E n \in c.allow : InNet(c.peer, n))
+                 /\ ((c.allow = {} /\ c.malformed # "allow") \/ \E n \in c.allow : InNet(c.peer, n))
+                 /\ ~(c.malformed = "deny" /\ c.allow = {} /\ c.deny = {})
 \* the request MAY be let through the IP layer
 IpMay(c) == ~Configured(c) \/ PeerPasses(c)
 \* the request MUST be let through the IP layer (with a malformed entry refusing everything is fine)
@@ -64,10 +70,13 @@ Check(c, o) ==
   IN v1 \o v2 \o v3 \o v4
 
 \* ---- case spaces (enumerated by TLC, executed by the harness)
-IpCases == [allow : SUBSET AllowCand, deny : SUBSET DenyCand, malformed : Malformed, peer : Peers,
-            xff : Forged, xri : {"absent", "h0", "h5"}, family : Families,
-            token : {FALSE}, authz : {"absent"}, endpoint : {"backends"}, method : {"GET"}]
-AuthCases == [allow : {{}, {[p |-> 0, len |-> 1, single |-> FALSE]}}, deny : {{}}, malformed : {"none"}, peer : {1, 6},
+IpCases0 == [allow : SUBSET AllowCand, deny : SUBSET DenyCand, malformed : Malformed, mkind : MalKinds, peer : Peers,
+             xff : Forged, xri : {"absent", "h0", "h5"}, family : Families,
+             token : {FALSE}, authz : {"absent"}, endpoint : {"backends"}, method : {"GET"}]
+\* the forged-header dimensions are only crossed with well-formed lists and one malformed spelling
+IpCases == {c \in IpCases0 : /\ (c.malformed = "none" => c.mkind = "badip")
+                             /\ (c.mkind # "badip" => (c.xff = "absent" /\ c.xri = "absent" /\ c.family = "v4"))}
+AuthCases == [allow : {{}, {[p |-> 0, len |-> 1, single |-> FALSE]}}, deny : {{}}, malformed : {"none"}, mkind : {"badip"}, peer : {1, 6},
               xff : {"absent"}, xri : {"absent"}, family : {"v4"},
               token : BOOLEAN, authz : Authz, endpoint : Endpoints, method : Methods]
 =============================================================================
